@@ -16,6 +16,7 @@ RULES = {
     "R5": "KNeighbors: tree and data_ from the same fit call, gather data_[indices], k = self.k, reduce along axis=1",
     "R6": "SciPy gridders: fit stacks (ravel E, ravel N) columns and ravel(data) values; predict passes (E, N)",
     "R7": "Trend predict and jacobian use the same monomials easting^i * northing^j for the same combinations; coefficient k pairs with combination k",
+    "R9": "compositions keep exactness: Chain threads residuals through every step and sums every step's prediction, Vector pairs component i with data[i] (C06.R1-R3)",
     "R8": "the shared helpers number the points like the data: n_1d_arrays ravels in C order, kdtree indexes the points in n_1d_arrays order",
 }
 ASSUMPTIONS = ["the tolerance/conditioning statement and every numeric equality are declined (solver accuracy is a property of LAPACK/scikit-learn, not of verde's source)"]
@@ -351,3 +352,11 @@ def check(ctx):
         ctx.alias = {}
     r7_trend(ctx)
     K.point_order_contract(ctx, "R8")
+    from . import c06
+    ctx.alias = {"R1": "R9", "R2": "R9", "R3": "R9", "R6": "R9"}
+    try:
+        c06.r1_threading(ctx)
+        c06.r2_sum(ctx)
+        c06.r3_vector(ctx)
+    finally:
+        ctx.alias = {}
